@@ -31,6 +31,9 @@ def check_header_regex(ctx, r, info):
     if w is not None:
         fail(r, ctx, f, f.node, f"the header recogniser {pat!r} accepts {w!r}, which is not a [header] line", witness=w)
     r.inst("header recogniser: group 1 = text between the first '[' and the last ']'")
+    if impl.ngroups < 1:
+        fail(r, ctx, f, f.node, f"the header recogniser {pat!r} has no capture group: the section tag cannot be its group 1")
+        return
     cw = rx.capture_exact(impl, canon, {"tag": 1})
     if cw is not None:
         fail(r, ctx, f, f.node, f"on the header line {cw.string!r} the recogniser captures {cw.got} where the tag is {cw.want}", witness=cw.string)
